@@ -15,7 +15,9 @@ Record stobs := {
   so_once_stale : nat;                  (* rounds after which it was still counted as subscribed *)
   so_dead_seen : nat;                   (* rounds in which it was handed an event published with the cancelled context *)
   (* phase 3: after concurrent Unsubscribe/Subscribe churn on two of four handlers, a probe event *)
-  so_probe_bad : nat                    (* handlers that did not get the probe exactly once (+10 if HandlerCount is not 4) *)
+  so_probe_bad : nat;                   (* handlers that did not get the probe exactly once (+10 if HandlerCount is not 4) *)
+  (* phase 4: rounds of a fresh synchronous Sequential handler hit by four publishers at once *)
+  so_fresh_overlap : nat                (* rounds in which two of its invocations overlapped *)
 }.
 
 Definition ok_stress (i : nat * nat * nat * bool) (o : stobs) : bool :=
@@ -26,7 +28,8 @@ Definition ok_stress (i : nat * nat * nat * bool) (o : stobs) : bool :=
   Nat.eqb (so_count o) nst &&
   (if store then Nat.eqb (so_records o) events else Nat.eqb (so_records o) 0) && Nat.eqb (so_disorder o) 0 &&
   Nat.eqb (so_escaped o) 0 &&
-  Nat.eqb (so_once_lost o) 0 && Nat.eqb (so_once_stale o) 0 && Nat.eqb (so_dead_seen o) 0 && Nat.eqb (so_probe_bad o) 0.
+  Nat.eqb (so_once_lost o) 0 && Nat.eqb (so_once_stale o) 0 && Nat.eqb (so_dead_seen o) 0 && Nat.eqb (so_probe_bad o) 0 &&
+  Nat.eqb (so_fresh_overlap o) 0.
 
 Definition check_stress (c : (nat * nat * nat * bool) * stobs) : bool * bool * nat := (true, ok_stress (fst c) (snd c), 0).
 
